@@ -9,8 +9,10 @@
      lockok=1|0|-             (L: given) the given lock is itself a complete valid solution
      lockreach=<assignment>   its part reachable from the root (what re-resolution must return)
      known=<edges>            edges in the known class of lookup failures of the unchanged tree
-     cur{E=.. SD=.. K=.. M=..}  precise / sorted_dependencies / LockFile::new / package_map as
-                              modelled with the matcher of the unchanged tree (matches_cur)
+     cur{E=.. SD=.. K=.. M=.. LV=..}  precise / sorted_dependencies / LockFile::new / package_map as
+                              modelled with the matcher of the unchanged tree (matches_cur);
+                              LV = the lock file's entries are themselves a valid solution
+                              (the hypothesis of relock_stable)
      fix{E=.. SD=.. K=.. M=..}  the same with the repaired matcher (matches_fix)
    Only parsing and printing happen here; every decision is made by extracted code. *)
 open C20_model
@@ -132,6 +134,11 @@ let downstream mt (c : case) (ip : (n * ver list) list) =
       show_ppkg p ^ "[" ^
       show_res (fun l -> String.concat "," (List.map (fun (n, (_, q)) -> n ^ "=" ^ show_ppkg q) l))
         (sorted_dependencies mt r p) ^ "]") resolved in
+  let lk = lock_new (nat_of_int 400) mt r c.root in
+  (* hypothesis of relock_stable, validated per universe: the lock's entries are a valid solution *)
+  let lv = match lk with
+    | Ok l -> if valid_solution c.idx c.root (locked_of (lock_entries l)) then "1" else "0"
+    | _ -> "-" in
   let k = show_res (fun ((deps, acc) : lockfile) ->
       let deps = List.map (fun (n, e) -> n ^ "=" ^ show_en e) (List.sort (fun (a, _) (b, _) -> compare a b) deps) in
       let acc = List.sort (fun ((n1, c1), _) ((n2, c2), _) -> compare (n1, int_of_n c1) (n2, int_of_n c2)) acc in
@@ -139,13 +146,13 @@ let downstream mt (c : case) (ip : (n * ver list) list) =
           Printf.sprintf "%s=%s[%s]" (show_en en) (show_ppkg p)
             (String.concat "," (List.map (fun (n, e) -> n ^ "=" ^ show_en e) ds))) acc in
       "ok{" ^ String.concat "," deps ^ "|" ^ String.concat ";" pk ^ "}")
-      (lock_new (nat_of_int 400) mt r c.root) in
+      lk in
   let m = show_res (fun (top, pk) ->
       let top = List.sort compare (List.map (fun (n, p) -> n ^ "=" ^ show_ppkg p) top) in
       let pk = List.sort_uniq compare (List.map (fun ((pp, n), q) -> show_ppkg pp ^ "/" ^ n ^ "=" ^ show_ppkg q) pk) in
       "ok{" ^ String.concat "," top ^ "|" ^ String.concat "," pk ^ "}")
       (package_map mt r c.root) in
-  Printf.sprintf "E=%s SD=%s K=%s M=%s" (String.concat "," (e_root @ e_pk)) (String.concat ";" sd) k m
+  Printf.sprintf "E=%s SD=%s K=%s M=%s LV=%s" (String.concat "," (e_root @ e_pk)) (String.concat ";" sd) k m lv
 
 let cap = 200000
 
